@@ -119,7 +119,11 @@ pub fn rendered(script: &Script) -> Vec<String> {
     script.stmts.iter().map(|s| crate::ir::render_top(&s.ex)).collect()
 }
 
+pub const HANG_SECS: u64 = 45;
+
 pub struct BatchCfg {
+    /// on a hang: property and replay directory for the report (None: print and exit 2)
+    pub hang_report: Option<(String, String)>,
     /// run only indices congruent to `only_mod.0` modulo `only_mod.1` (probing tool)
     pub only_mod: Option<(u64, u64)>,
     pub profile: String,
@@ -136,9 +140,30 @@ pub fn run_batch(cfg: &BatchCfg) -> (Agg, f64, bool) {
     let stop = AtomicBool::new(false);
     let capped = AtomicBool::new(false);
     let agg = Mutex::new(Agg::default());
+    let done = AtomicBool::new(false);
     std::thread::scope(|s| {
-        for _ in 0..cfg.threads {
-            let h = std::thread::Builder::new().stack_size(256 << 20).spawn_scoped(s, || {
+        // hang watchdog: a statement that does not return for HANG_SECS of wall clock is reported
+        // as a violation of "never hangs on terminating input" (generated arguments are small)
+        s.spawn(|| {
+            while !done.load(Ordering::Relaxed) {
+                std::thread::sleep(std::time::Duration::from_millis(250));
+                for w in 0..cfg.threads.min(MAX_WORKERS - 1) {
+                    let run1 = PROGRESS_RUN[w].load(Ordering::Relaxed);
+                    let since = PROGRESS_SINCE_MS[w].load(Ordering::Relaxed);
+                    if run1 != 0 && since != 0 && now_ms().saturating_sub(since) > HANG_SECS * 1000 {
+                        let i = run1 - 1;
+                        let stmt = PROGRESS_STMT[w].load(Ordering::Relaxed) as usize;
+                        report_hang(cfg, i, stmt);
+                    }
+                }
+            }
+        });
+        for wid in 0..cfg.threads {
+            let next = &next;
+            let stop = &stop;
+            let capped = &capped;
+            let agg = &agg;
+            let h = std::thread::Builder::new().stack_size(256 << 20).spawn_scoped(s, move || {
                 install_panic_hook();
                 let mut local = Agg::default();
                 loop {
@@ -161,6 +186,7 @@ pub fn run_batch(cfg: &BatchCfg) -> (Agg, f64, bool) {
                         break;
                     }
                     let seed = mix3(cfg.base_seed, tag(&cfg.profile), i);
+                    set_worker(wid, i + 1);
                     let t0 = Instant::now();
                     let g = generate(&cfg.profile, seed, i);
                     let t1 = Instant::now();
@@ -235,15 +261,71 @@ pub fn run_batch(cfg: &BatchCfg) -> (Agg, f64, bool) {
                         }
                     }
                 }
+                set_worker(wid, 0);
                 let mut a = agg.lock().unwrap();
                 merge(&mut a, local);
             });
             h.unwrap();
         }
+        // scoped threads are joined at the end of the scope; tell the watchdog to stop once the
+        // workers are done
+        let done = &done;
+        let nthreads = cfg.threads;
+        s.spawn(move || loop {
+            std::thread::sleep(std::time::Duration::from_millis(100));
+            let busy = (0..nthreads.min(MAX_WORKERS - 1)).any(|w| PROGRESS_RUN[w].load(Ordering::Relaxed) != 0);
+            if !busy {
+                done.store(true, Ordering::Relaxed);
+                break;
+            }
+        });
     });
     let mut a = agg.into_inner().unwrap();
     a.violations.sort_by_key(|v| v.0);
     (a, start.elapsed().as_secs_f64(), capped.load(Ordering::Relaxed))
+}
+
+fn report_hang(cfg: &BatchCfg, i: u64, stmt: usize) -> ! {
+    let seed = mix3(cfg.base_seed, tag(&cfg.profile), i);
+    let g = generate(&cfg.profile, seed, i);
+    let mut script = g.script;
+    let stmt = stmt.min(script.stmts.len().saturating_sub(1));
+    script.stmts.truncate(stmt + 1);
+    let rend = rendered(&script);
+    let v = Violation {
+        kind: ViolationKind::Invariant("hang".into()),
+        stmt_index: stmt,
+        source: rend.last().cloned().unwrap_or_default(),
+        expected: format!("the statement returns (value or error) within {} s of wall clock", HANG_SECS),
+        observed: "no return: the interpreter hangs on small, terminating input".into(),
+        detail: format!("profile={} base_seed={}", cfg.profile, cfg.base_seed),
+    };
+    match &cfg.hang_report {
+        Some((property, dir)) => {
+            let replay = Replay {
+                property: "C14".to_string(),
+                profile: cfg.profile.clone(),
+                base_seed: cfg.base_seed,
+                run_index: i,
+                violation: v,
+                rendered: rend.clone(),
+                script,
+                minimised: false,
+            };
+            let path = write_replay(dir, &replay);
+            println!("--- hang at run {} statement {}:", i, stmt);
+            for l in rend.iter().rev().take(3).rev() {
+                println!("    {}", l);
+            }
+            println!("VIOLATION property=C14 replay={}", path);
+            let _ = property;
+            std::process::exit(1)
+        }
+        None => {
+            println!("HANG at run {} statement {}: {}", i, stmt, rend.last().cloned().unwrap_or_default());
+            std::process::exit(2)
+        }
+    }
 }
 
 fn merge(a: &mut Agg, b: Agg) {
@@ -389,7 +471,10 @@ pub fn level_for(property: &str) -> &'static str {
 
 fn write_replay(dir: &str, r: &Replay) -> String {
     std::fs::create_dir_all(dir).unwrap();
-    let path = format!("{}/{}-{}-{}-{}.json", dir, r.property, r.profile, r.base_seed, r.run_index);
+    let path = format!(
+        "{}/{}-{}-{}-{}-s{}.json",
+        dir, r.property, r.profile, r.base_seed, r.run_index, r.violation.stmt_index
+    );
     std::fs::write(&path, serde_json::to_string_pretty(r).unwrap()).unwrap();
     path
 }
@@ -418,7 +503,17 @@ pub fn do_replay(path: &str) -> i32 {
             return 2;
         }
     };
-    let res = execute(&r.script);
+    let res = match execute_watched(&r.script, HANG_SECS) {
+        Ok(res) => res,
+        Err(stmt) => {
+            println!("replay: statement {} does not return within {} s", stmt, HANG_SECS);
+            if r.violation.kind == ViolationKind::Invariant("hang".into()) {
+                println!("VIOLATION property={} replay={}", r.property, path);
+                std::process::exit(1);
+            }
+            std::process::exit(3);
+        }
+    };
     for l in res.log.iter() {
         println!("{}", l);
     }
@@ -492,6 +587,7 @@ pub fn do_check(args: &[String]) -> i32 {
         let runs = runs_override.unwrap_or(*prof_runs);
         for (si, s) in seeds_here.iter().enumerate() {
             let cfg = BatchCfg {
+                hang_report: Some((property.clone(), replay_dir.clone())),
                 only_mod: None,
                 profile: prof.to_string(),
                 base_seed: *s,
@@ -688,6 +784,7 @@ pub fn main(args: Vec<String>) -> i32 {
             let runs: u64 = arg_val(&args, "--runs").and_then(|s| s.parse().ok()).unwrap_or(1000);
             let threads: usize = arg_val(&args, "--threads").and_then(|s| s.parse().ok()).unwrap_or(16);
             let cfg = BatchCfg {
+                hang_report: None,
                 only_mod: arg_val(&args, "--only-mod").map(|s| {
                     let mut it = s.split('/');
                     (it.next().unwrap().parse().unwrap(), it.next().unwrap().parse().unwrap())
